@@ -42,6 +42,10 @@ def run(ctx):
     nseq = ctx.pick(14, 120)
     maxn = ctx.pick(150, 300)
     seqs = common.random_sequences(ctx.rng, nseq, maxn, 1) + patterning.special_sequences(ctx.rng, ctx.pick(200, 300))
+    # lengths 2^k and 2^k + 1 with both termini charged (an FFT-based autocorrelation wraps around exactly there)
+    for n in (33, 64, 65, 129, 257)[:ctx.pick(4, 5)]:
+        mid = common.random_sequences(ctx.rng, 1, n - 2, n - 2)[0]
+        seqs += ["K" + mid + "E", "D" + mid + "D"]
     trs = []
     for i, s in enumerate(seqs):
         o, s, how = make_object(lc, s, ctx.rng)
@@ -53,6 +57,22 @@ def run(ctx):
             continue
         trs.append({"tid": i + 1, "seq": list(s), "after": hist, "ev": [{"q": "scd", "r": common.fx(out[1])}]})
     patterning.judge_traces(ctx, trs, need_sqrt=max(len(s) for s in seqs))
+    # beyond what TLC evaluates here: two sequences of more than 1000 residues with the same ends (harness arithmetic only)
+    ends = "KEG"
+    for rep in range(2):
+        body = common.random_sequences(ctx.rng, 1, 1300, 1100)[0]
+        s = ends + body + ends[::-1]
+        out = common.call(lc.SP(s).get_SCD, limit=300)
+        x = common.charge_pattern(s)
+        idx = [(i, c) for i, c in enumerate(x) if c]
+        coeffs = [0] * (len(x) - 1)
+        for a in range(len(idx)):
+            for b in range(a + 1, len(idx)):
+                coeffs[idx[b][0] - idx[a][0] - 1] += idx[a][1] * idx[b][1]
+        exact = scd_exact(coeffs, len(x))
+        ctx.evaluations += 1
+        if out[0] != "ok" or not common.is_number(out[1]) or not common.close(out[1], exact):
+            ctx.violation("scd-value", {"seq": s[:40] + "...", "length": len(s)}, expected=float(exact), actual=out)
     ctx.sample({"trace": {"seq": seqs[0], "ev": ["get_SCD"]}})
     ctx.assumptions += ["sqrt(d) enters as floor(sqrt(d)*1e15) computed by the harness; TLC verifies r^2 <= d*1e30 < (r+1)^2 before use",
                         "1e-9 relative tolerance"]
